@@ -644,7 +644,9 @@ def describe(line):
 
 ALPHABET = ["", ".", "..", "file.txt", "dir", "..name", "%2e%2e", "index.html", "x.html", "\u00fc.txt"]
 EXTENDED = ALPHABET + ["x", "rootX", "secret", "root", "outer", ".hid", "h", "...", "x\0", "a" * 256, "\ud800",
-                       "dir.html", "sub", "sub.html", "d2", "index", "root.html", " ", "\u00fc" * 128, "\udcff"]
+                       "dir.html", "sub", "sub.html", "d2", "index", "root.html", " ", "\u00fc" * 128, "\udcff",
+                       # the single byte FC: NOT the name of the file "\u00fc.txt" (whose name is the bytes C3 BC . t x t)
+                       "\udcfc.txt"]
 
 
 def base_of(token):
